@@ -471,3 +471,18 @@ Proof.
       by (vm_compute; reflexivity).
     rewrite forallb_forall in F. exact (F img Hi).
 Qed.
+
+(* ---------------------------------------------------------------------------------------------------------------
+   Source pins.  The offset bookkeeping over an image (getValuesFromRow / getIdentifiesFromRow) and the place where a
+   re-announced table id gets its new table map (parseEvents) are modelled by hand (Model/Streamer.v: closures, maps,
+   interfaces - outside what gotrans translates); gosync regenerates their normalised text on every run and it must equal
+   the snapshot the model was validated against.  An edit makes the Example fail; the check then looks for a failing
+   input with the harness (runRetyped: table maps of another shape under the same id between two rows events). *)
+From GB Require Proofs.SourcePins Spec.SourceSnapshot.
+From GBGen Require Source.
+Example C09_pin_getValuesFromRow : Source.src_getValuesFromRow = SourceSnapshot.src_getValuesFromRow.
+Proof. exact SourcePins.pin_getValuesFromRow. Qed.
+Example C09_pin_getIdentifiesFromRow : Source.src_getIdentifiesFromRow = SourceSnapshot.src_getIdentifiesFromRow.
+Proof. exact SourcePins.pin_getIdentifiesFromRow. Qed.
+Example C09_pin_parseEvents : Source.src_parseEvents = SourceSnapshot.src_parseEvents.
+Proof. exact SourcePins.pin_parseEvents. Qed.
